@@ -19,6 +19,49 @@ Theorem C02g_link_cs_is_before :
 Proof. exact link_cs_is_before. Qed.
 Print Assumptions C02g_link_cs_is_before.
 
+Theorem C02g_link_new :
+  option_map convp M_CharPartition_new = Some pnew.
+Proof. exact link_new. Qed.
+Print Assumptions C02g_link_new.
+
+Theorem C02g_link_push :
+  forall (p : CharPartition) (a b : N),
+       b <= MAX_CHAR -> option_map convp (M_CharPartition_push p a b) = Some (ppush (convp p) a b).
+Proof. exact link_push. Qed.
+Print Assumptions C02g_link_push.
+
+Theorem C02g_link_len :
+  forall p : CharPartition, M_CharPartition_len p = Some (plen (convp p)).
+Proof. exact link_len. Qed.
+Print Assumptions C02g_link_len.
+
+Theorem C02g_link_get :
+  forall (p : CharPartition) (i : nat), M_CharPartition_get p i = Some (pget (convp p) i).
+Proof. exact link_get. Qed.
+Print Assumptions C02g_link_get.
+
+Theorem C02g_link_start :
+  forall (p : CharPartition) (i : nat), M_CharPartition_start p i = Some (pstart (convp p) i).
+Proof. exact link_start. Qed.
+Print Assumptions C02g_link_start.
+
+Theorem C02g_link_end :
+  forall (p : CharPartition) (i : nat), M_CharPartition_end p i = Some (pend (convp p) i).
+Proof. exact link_end. Qed.
+Print Assumptions C02g_link_end.
+
+Theorem C02g_link_empty_complement :
+  forall p : CharPartition,
+       M_CharPartition_empty_complement p = Some (pempty_complement (convp p)).
+Proof. exact link_empty_complement. Qed.
+Print Assumptions C02g_link_empty_complement.
+
+Theorem C02g_link_valid_class_id :
+  forall (p : CharPartition) (c : ClassId),
+       M_CharPartition_valid_class_id p c = Some (pvalid (convp p) (convc c)).
+Proof. exact link_valid_class_id. Qed.
+Print Assumptions C02g_link_valid_class_id.
+
 Theorem C02g_link_bs_char :
   forall (fuel : nat) (l : list CharSet) (x : N) (i j : nat),
        char_res (CharPartition_class_of_char_binary_search_loop1 fuel l x i j) =
@@ -27,11 +70,75 @@ Proof. exact link_bs_char. Qed.
 Print Assumptions C02g_link_bs_char.
 
 Theorem C02g_link_class_of_char :
+  forall (p : CharPartition) (x : N),
+       option_map convc (M_CharPartition_class_of_char (S (length (CharPartition_list p))) p x) =
+       pclass_of_char (convp p) x.
+Proof. exact link_class_of_char. Qed.
+Print Assumptions C02g_link_class_of_char.
+
+Theorem C02g_link_bs_cover :
+  forall (fuel : nat) (l : list CharSet) (x : N) (i j : nat),
+       cover_res (CharPartition_interval_cover_binary_search_loop1 fuel l x i j) =
+       bs_cover fuel (map conv l) x i j.
+Proof. exact link_bs_cover. Qed.
+Print Assumptions C02g_link_bs_cover.
+
+Theorem C02g_link_interval_cover :
+  forall (p : CharPartition) (s : CharSet),
+       option_map convr (M_CharPartition_interval_cover (S (length (CharPartition_list p))) p s) =
+       pinterval_cover (convp p) (conv s).
+Proof. exact link_interval_cover. Qed.
+Print Assumptions C02g_link_interval_cover.
+
+Theorem C02g_link_class_of_set :
+  forall (p : CharPartition) (s : CharSet),
+       option_map convres (M_CharPartition_class_of_set (S (length (CharPartition_list p))) p s) =
+       pclass_of_set (convp p) (conv s).
+Proof. exact link_class_of_set. Qed.
+Print Assumptions C02g_link_class_of_set.
+
+Theorem C02g_link_class_of_set_err :
+  forall (fuel : nat) (p : CharPartition) (s : CharSet) (e : Error),
+       M_CharPartition_class_of_set fuel p s = Some (Err e) -> e = Error_AmbiguousCharSet.
+Proof. exact link_class_of_set_err. Qed.
+Print Assumptions C02g_link_class_of_set_err.
+
+Theorem C02g_link_next_interval :
+  forall (p : CharPartition) (i : nat),
+       M_fn_merge_partitions_next_interval p i =
+       Some (S i, fst (pget (convp p) i), snd (pget (convp p) i)).
+Proof. exact link_next_interval. Qed.
+Print Assumptions C02g_link_next_interval.
+
+Theorem C02g_link_merge_loop :
+  forall (fuel : nat) (p1 p2 : CharPartition),
+       bounded p1 ->
+       bounded p2 ->
+       forall (res : CharPartition) (i : nat) (a b : N) (j : nat) (c d : N),
+       a <= SENT ->
+       b <= SENT ->
+       c <= SENT ->
+       d <= SENT ->
+       merge_res (fn_merge_partitions_loop1 fuel p1 p2 (i, a, b) (j, c, d) res) =
+       merge_loop fuel (convp p1) (convp p2) i a b j c d (convp res).
+Proof. exact link_merge_loop. Qed.
+Print Assumptions C02g_link_merge_loop.
+
+Theorem C02g_link_merge_partitions :
+  forall p1 p2 : CharPartition,
+       bounded p1 ->
+       bounded p2 ->
+       option_map convp (M_fn_merge_partitions (merge_fuel (convp p1) (convp p2)) p1 p2) =
+       pmerge_opt (convp p1) (convp p2).
+Proof. exact link_merge_partitions. Qed.
+Print Assumptions C02g_link_merge_partitions.
+
+Theorem C02g_link_class_of_char_fuel :
   forall (fuel : nat) (p : CharPartition) (x : N),
        (length (CharPartition_list p) < fuel)%nat ->
        option_map convc (M_CharPartition_class_of_char fuel p x) = pclass_of_char (convp p) x.
-Proof. exact link_class_of_char. Qed.
-Print Assumptions C02g_link_class_of_char.
+Proof. exact link_class_of_char_fuel. Qed.
+Print Assumptions C02g_link_class_of_char_fuel.
 
 Theorem C02g_link_state_id :
   forall s : State, M_State_id_fn s = Some (a_id (convst s)).
@@ -232,6 +339,66 @@ Theorem C02g_link_final_states_drain :
        Some (a_final_states (conva a)).
 Proof. exact link_final_states_drain. Qed.
 Print Assumptions C02g_link_final_states_drain.
+
+Theorem C02g_link_interval_cover_fuel :
+  forall (fuel : nat) (p : CharPartition) (s : CharSet),
+       (length (CharPartition_list p) < fuel)%nat ->
+       option_map convr (M_CharPartition_interval_cover fuel p s) =
+       pinterval_cover (convp p) (conv s).
+Proof. exact link_interval_cover_fuel. Qed.
+Print Assumptions C02g_link_interval_cover_fuel.
+
+Theorem C02g_link_class_of_set_fuel :
+  forall (fuel : nat) (p : CharPartition) (s : CharSet),
+       (length (CharPartition_list p) < fuel)%nat ->
+       option_map convres (M_CharPartition_class_of_set fuel p s) =
+       pclass_of_set (convp p) (conv s).
+Proof. exact link_class_of_set_fuel. Qed.
+Print Assumptions C02g_link_class_of_set_fuel.
+
+Theorem C02g_link_char_set_next :
+  forall (fuel : nat) (a : Automaton) (s : State) (set : CharSet),
+       (length (CharPartition_list (State_classes s)) < fuel)%nat ->
+       cs_next_res (M_Automaton_char_set_next fuel a s set) =
+       a_char_set_next (conva a) (convst s) (conv set).
+Proof. exact link_char_set_next. Qed.
+Print Assumptions C02g_link_char_set_next.
+
+Theorem C02g_link_merge_fuel :
+  forall (fuel : nat) (p1 p2 : CharPartition),
+       gwf p1 ->
+       gwf p2 ->
+       (merge_fuel (convp p1) (convp p2) <= fuel)%nat ->
+       option_map convp (M_fn_merge_partitions fuel p1 p2) = Some (pmerge (convp p1) (convp p2)).
+Proof. exact link_merge_fuel. Qed.
+Print Assumptions C02g_link_merge_fuel.
+
+Theorem C02g_link_merge_list_loop :
+  forall (fuel : nat) (l : list CharPartition) (acc : CharPartition),
+       gwf acc ->
+       Forall gwf l ->
+       list_fuel_ok fuel l (convp acc) ->
+       list_res (fn_merge_partition_list_loop1 fuel l acc) =
+       Some (fold_left pmerge (map convp l) (convp acc)).
+Proof. exact link_merge_list_loop. Qed.
+Print Assumptions C02g_link_merge_list_loop.
+
+Theorem C02g_link_merge_partition_list :
+  forall (fuel : nat) (l : list CharPartition),
+       Forall gwf l ->
+       list_fuel_ok fuel l pnew ->
+       option_map convp (M_fn_merge_partition_list fuel l) = Some (pmerge_list (map convp l)).
+Proof. exact link_merge_partition_list. Qed.
+Print Assumptions C02g_link_merge_partition_list.
+
+Theorem C02g_link_combined_char_partition :
+  forall (fuel : nat) (a : Automaton),
+       Forall (fun s : State => gwf (State_classes s)) (Automaton_states a) ->
+       list_fuel_ok fuel (map State_classes (Automaton_states a)) pnew ->
+       option_map convp (M_Automaton_combined_char_partition fuel a) =
+       Some (combined_partition (conva a)).
+Proof. exact link_combined_char_partition. Qed.
+Print Assumptions C02g_link_combined_char_partition.
 
 (* ---- next / accepts of a well-formed automaton on the translated code ---- *)
 
